@@ -163,7 +163,12 @@ Definition lts_delete : option (list Z) :=
   | None => None
   end.
 
-Definition check_sys (which : Z) (vlen : Z) (l : list sev) : Z :=
+(** what the traced operation returned: class 0 = nil error (the LTS's solo runs all succeed: the
+    key exists, nothing interferes), and a Load returned exactly the stored number of bytes *)
+Definition result_ok (which vlen rcls rbytes : Z) : bool :=
+  (rcls =? 0) && (negb (which =? 1) || (rbytes =? vlen)).
+
+Definition check_sys_trace (which : Z) (vlen : Z) (l : list sev) : Z :=
   let n := Z.to_nat vlen in
   if which =? 2 then
     match lts_delete with
@@ -186,13 +191,22 @@ Definition check_sys (which : Z) (vlen : Z) (l : list sev) : Z :=
     | _ => code false (load_trace_ok vlen l)
     end.
 
+(** trace and result together: the model (LTS solo run) says the operation succeeds, and the
+    specification demands it *)
+Definition check_sys (which vlen rcls rbytes : Z) (l : list sev) : Z :=
+  let c := check_sys_trace which vlen l in
+  let r := result_ok which vlen rcls rbytes in
+  code (((c =? 0) || (c =? 2)) && r) (((c =? 0) || (c =? 1)) && r).
+
 (** ** kind 2: timed history on one key.  Values carry unique ids (id of the Store that
     wrote them; the initial value is the Store with the smallest interval); a Load reports
-    the id it read, 0 for not-exist, -1 for anything that is not a whole value; a Store that
+    the id it read, 0 for not-exist, -1 for anything that is not a whole value (also an
+    unexpected error), -3 with the [hempty] flag for an empty value; a Store that
     returned an error has id -2 (no Store may fail: the key's directory exists and nothing
     is deleted in these runs). *)
-Record hev := Hev { is_load : bool; t0 : Z; t1 : Z; vid : Z }.
-Definition get_hev : dec hev := b <- get_bool ;; a <- get_z ;; c <- get_z ;; v <- get_z ;; ret (Hev b a c v).
+Record hev := Hev { is_load : bool; t0 : Z; t1 : Z; vid : Z; hempty : bool }.
+Definition get_hev : dec hev :=
+  b <- get_bool ;; a <- get_z ;; c <- get_z ;; v <- get_z ;; e <- get_bool ;; ret (Hev b a c v e).
 
 Definition find_store (h : list hev) (id : Z) : option hev :=
   find (fun e => negb (is_load e) && (vid e =? id)) h.
@@ -212,12 +226,17 @@ Definition no_inversion (a b : hev * option hev) : bool :=
   | (l1, Some w1), (l2, Some w2) => negb (t1 l1 <? t0 l2) || negb (t1 w2 <? t0 w1)
   | _, _ => true
   end.
+(** empty values all look alike: a Load that returned an empty value ([hempty], id -3) is
+    explained by ANY Store of an empty value that the rule above allows *)
+Definition empty_load_ok (stores : list hev) (l : hev) : bool :=
+  existsb (fun w => hempty w && load_ok stores (l, Some w)) stores.
 Definition hist_ok (h : list hev) : bool :=
   (* every Store completed (a Store reported as failed has id -2) *)
   forallb (fun e => is_load e || (0 <? vid e)) h &&
   let stores := filter (fun e => negb (is_load e)) h in
-  let loads := map (fun l => (l, find_store stores (vid l))) (filter is_load h) in
+  let loads := map (fun l => (l, find_store stores (vid l))) (filter (fun l => is_load l && negb (hempty l)) h) in
   forallb (load_ok stores) loads &&
+  forallb (empty_load_ok stores) (filter (fun l => is_load l && hempty l) h) &&
   forallb (fun a => forallb (no_inversion a) loads) loads.
 
 (** ** kind 3: SIGKILL of a writer.  The LTS leaves under the name, for a kill after any
@@ -250,8 +269,8 @@ Definition check_line (l : list Z) : Z :=
       | None => code_decode_error
       end
   | 1 :: r =>
-      match decode (w <- get_z ;; n <- get_z ;; l <- get_list get_sev ;; ret (w, n, l)) r with
-      | Some (w, n, l) => check_sys w n l
+      match decode (w <- get_z ;; n <- get_z ;; rc <- get_z ;; rb <- get_z ;; l <- get_list get_sev ;; ret (w, n, rc, rb, l)) r with
+      | Some (w, n, rc, rb, l) => check_sys w n rc rb l
       | None => code_decode_error
       end
   | 2 :: r =>
@@ -280,7 +299,7 @@ Definition explain_line (l : list Z) : list Z :=
       | None => []
       end
   | 1 :: r =>
-      match decode (w <- get_z ;; n <- get_z ;; l <- get_list get_sev ;; ret (w, n, l)) r with
+      match decode (w <- get_z ;; n <- get_z ;; rc <- get_z ;; rb <- get_z ;; l <- get_list get_sev ;; ret (w, n, l)) r with
       | Some (w, n, l) =>
           if w =? 0 then match lts_store (Z.to_nat n) (nat_args 2 l) with Some c => c | None => [-1] end
           else match lts_store_load (Z.to_nat n) (if (Z.to_nat n =? 0)%nat then [] else [Z.to_nat n])
